@@ -1,0 +1,19 @@
+//go:build verif
+
+// Contracts for govc (see /verif/DESIGN.md). Comment-only; compiled only with -tags verif.
+
+package tdelfields
+
+//@ property C15 C07
+
+// exactly the listed fields are emptied; every other field keeps its value
+//@ func (tf *delFieldsTransform) Transform(record *base.LogRecord) base.FilterResult
+//@   requires tf != nil && record != nil && forall j int :: 0 <= j && j < len(tf.locators) ==> 0 <= tf.locators[j] && tf.locators[j] < len(record.Fields)
+//@   modifies record.Fields[:]
+//@   ensures  result == base.PASS
+//@   ensures[listed-fields-emptied] forall j int :: 0 <= j && j < len(tf.locators) ==> len(record.Fields[tf.locators[j]]) == 0
+//@   ensures[other-fields-unchanged] forall i int :: 0 <= i && i < len(record.Fields) && (forall j int :: 0 <= j && j < len(tf.locators) ==> tf.locators[j] != i)
+//@        ==> record.Fields[i] === old(record.Fields[i])
+//@   loop 1: invariant -1 <= rangeindex && rangeindex < len(tf.locators) && fields === record.Fields
+//@   loop 1: invariant forall j int :: 0 <= j && j <= rangeindex ==> len(record.Fields[tf.locators[j]]) == 0
+//@   loop 1: invariant forall i int :: 0 <= i && i < len(record.Fields) && (forall j int :: 0 <= j && j < len(tf.locators) ==> tf.locators[j] != i) ==> record.Fields[i] === old(record.Fields[i])
